@@ -30,6 +30,9 @@ type fieldDesc struct {
 	R2  int     `json:"r2,omitempty"`
 	R   float64 `json:"r,omitempty"`
 	Off float64 `json:"off"`
+	// Tube = 1, 2, 3: instead of a sphere, an (infinite) cylinder of radius r along the x, y, z axis through C,
+	// cut off by the domain box: one field whose surface runs through every block it spans
+	Tube int `json:"tube,omitempty"`
 }
 
 const surfaceOffset = 7.25 // field value on the sphere; |p-c| = r - 7.25 has no solution on integer p, so no cell is 0
@@ -53,7 +56,23 @@ func (f fieldDesc) field(nfun int) marching.Field {
 	fns := map[string]sample.Vec3ToFloat{}
 	for k := 0; k < nfun; k++ {
 		if k == 0 {
-			fns[attrOf(0)] = func(p vector3.Float64) float64 { return p.Distance(c) - r + off }
+			if f.Tube > 0 {
+				ax := f.Tube - 1
+				fns[attrOf(0)] = func(p vector3.Float64) float64 {
+					d := p.Sub(c)
+					switch ax {
+					case 0:
+						d = d.SetX(0)
+					case 1:
+						d = d.SetY(0)
+					default:
+						d = d.SetZ(0)
+					}
+					return d.Length() - r + off
+				}
+			} else {
+				fns[attrOf(0)] = func(p vector3.Float64) float64 { return p.Distance(c) - r + off }
+			}
 		} else {
 			kk := float64(k)
 			fns[attrOf(k)] = func(p vector3.Float64) float64 { return p.X() + 2*p.Y() + 3*p.Z() + kk + 0.5 }
@@ -211,6 +230,9 @@ func marchMesh(f func() modeling.Mesh) (m modeling.Mesh, panicked string) {
 }
 
 func runMarch(d desc) marchOutcome {
+	if d.ParOnly {
+		return runMarchParOnly(d)
+	}
 	seqC := marching.NewMarchingCanvas(1)
 	parC := marching.NewMarchingCanvas(1)
 	var addPanicS, addPanicP string
@@ -281,4 +303,23 @@ func marchCoq(d desc, sr, pr []chunkRow, o marchOutcome) string {
 	}
 	return fmt.Sprintf("CMarch [%s] %d%%nat %s %s %s %s", strings.Join(boxes, ";"), d.NFun, rowsCoq(sr), rowsCoq(pr),
 		hx.CoqBool(o.canvasEq), hx.CoqBool(o.marchEq))
+}
+
+// only the parallel variants (for the -race binary, where a sequential march of 20 blocks costs ~40 s): the
+// verdict comes from the race detector
+func runMarchParOnly(d desc) marchOutcome {
+	parC := marching.NewMarchingCanvas(1)
+	for _, f := range d.Fields {
+		parC.AddFieldParallel(f.field(d.NFun))
+	}
+	var o marchOutcome
+	o.canvasEq = true
+	a, ap := marchMesh(func() modeling.Mesh { return parC.MarchParallel(d.Cutoff) })
+	o.marchEq = true
+	if ap == "" {
+		o.tris = len(triKeys(a))
+	}
+	pr := readCanvas(parC, d.NFun)
+	o.coq = marchCoq(d, pr, pr, o)
+	return o
 }
